@@ -38,7 +38,8 @@ class C19(SingleRun):
             "compare the (non-empty) inspection report, in the order inspect() returns it, across the interpreters; non-trivial = the definition has a join and a with-items or split task")
     RUNS = {"quick": 1600, "thorough": 40000}
     faults = dict(poll_skip=0.1, poll_twice=0.1, restart=0.05, dup=0.05, pause=0.03, resume_early=0.1, cancel=0.02,
-                  bad_request=0.03, rerun=0.3, p_fail=0.15)
+                  bad_request=0.03, rerun=0.3, p_fail=0.15, pending=0.03, act_cancel_solo=0.02, act_paused=0.03, early_pause=0.2,
+                  early_cancel=0.1, cancel_while_pausing=0.1)
     world = dict(chain=True, poll_idem=True)
     CROSS = {"quick": 480, "thorough": 6000}
     kf_share = 0.0
